@@ -138,6 +138,23 @@ def _resume(frame, value):
     return value
 
 
+def _yielding(frame, value):
+    """Yield value on behalf of the generator that owns frame.
+
+    The instrumented generator delegates each of its yields to this helper
+    (``yield from``), so that it is told it runs again in every way a
+    generator can be resumed: next/send, but also an exception thrown into
+    it -- whose handler may well call other functions before the next
+    variable is bound -- and close.
+    """
+    _suspend(frame, None)
+    try:
+        received = yield value
+    finally:
+        _resume(frame, None)
+    return received
+
+
 def _gensym():
     """Generate a fresh symbol."""
     return f"_ptera__{next(_IDX)}"
@@ -1010,15 +1027,12 @@ class PteraTransformer(NodeTransformer):
         )
         # The call stops running at the yield: its handlers must not apply
         # to whatever code runs until it is resumed
-        suspended = ast.Call(
-            func=self._get("suspend"),
-            args=[self._get("frame"), new_value],
-            keywords=[],
-        )
-        resumed = ast.Call(
-            func=self._get("resume"),
-            args=[self._get("frame"), ast.Yield(value=suspended)],
-            keywords=[],
+        resumed = ast.YieldFrom(
+            value=ast.Call(
+                func=self._get("yielding"),
+                args=[self._get("frame"), new_value],
+                keywords=[],
+            )
         )
         new_yield = self._interact(
             "#receive",
@@ -1250,6 +1264,7 @@ def transform(fn, proceed, to_instrument=True, set_conformer=True):
         "Key": ("__ptera_Key", Key),
         "suspend": ("__ptera_suspend", _suspend),
         "resume": ("__ptera_resume", _resume),
+        "yielding": ("__ptera_yielding", _yielding),
         "get_tags": ("__ptera_get_tags", get_tags),
         "self": (fnsym, None),
         "frame": ("__ptera_frame", None),
